@@ -84,6 +84,9 @@ def _run(res, work):
         k6 = rep["known_integer_complex"]
         if k6["probe_in_region"] or k6["hits"]:
             res.known("integer_complex_type: `_Complex int x;` panics (`Non floating-type complex?`, ir/context.rs); inside a libclang visitor callback the panic cannot unwind and the process aborts (SIGABRT); %d mutants / option sets in the region, %d of them aborts" % (k6["hits"], k6["of_which_process_aborts"]))
+        k8 = rep.get("known_macro_div_zero", {"hits": 0})
+        if k8["hits"]:
+            res.known("macro_division_by_zero_aborts: `#define DZ (1/0)` — the external cexpr evaluator panics (`attempt to divide by zero`) inside a libclang visitor callback, the panic cannot unwind and the process aborts (SIGABRT); %d corpus headers / mutants in the region" % k8["hits"])
         k7 = rep["known_opaque_debug_assert"]
         if k7["probe_in_region"] or k7["random_option_set_hits"]:
             res.known("opaque_with_fields_debug_assert: --opaque-type '.*' --no-recursive-allowlist on a class with a base class trips debug_assert!(fields.is_empty()) in codegen (debug builds only); %d random option sets in the region" % k7["random_option_set_hits"])
